@@ -94,7 +94,7 @@ func runCase(id int, name []byte, cfg [][2]string) {
 	}
 	line := "base=" + hx.Hex(base) + " base2=" + hx.Hex(base2) + " parts=" + hx.HexList(parts) + " vals=" + strings.Join(vals, ",")
 	hx.Printf("obs %d %s fx=%s pub=%s\n", id, line, strings.Join(fx, ","), pub)
-	hx.Printf("sobs %d %s\n", id, line)
+	hx.Printf("sobs %d %s fx=%s\n", id, line, strings.Join(fx, ","))
 }
 
 func main() {
